@@ -174,3 +174,56 @@ theorem nonwrite_inHeader (e : Ev) (H : Nat) (h : e.isWrite = false) : e.inHeade
   cases e <;> simp [Ev.isWrite] at h <;> simp [Ev.inHeader, Ev.isWrite]
 
 end KV.IO.Fs
+
+namespace KV.IO.Fs
+
+theorem getD_of_getElem? (t : Trace) (j : Nat) (e : Ev) (h : t[j]? = some e) : t.getD j .close = e := by
+  rw [List.getD_eq_getElem?_getD, h]; rfl
+
+theorem getD_of_none (t : Trace) (j : Nat) (h : t[j]? = none) : t.getD j .close = .close := by
+  rw [List.getD_eq_getElem?_getD, h]; rfl
+
+theorem verOKB_iff (t : Trace) (k s j : Nat) : verOKB t k s j = true ↔ VerOK t k s j := by
+  unfold verOKB VerOK
+  simp only [Bool.and_eq_true, decide_eq_true_eq, List.all_eq_true, List.mem_range, Bool.or_eq_true,
+    Bool.not_eq_true', Bool.and_eq_false_imp, decide_eq_false_iff_not]
+  constructor
+  · rintro ⟨hj, h⟩
+    refine ⟨hj, fun y hjy hyk e he => ?_⟩
+    rcases h y (by omega) with h1 | h1
+    · exact absurd hyk (h1 hjy)
+    · rw [getD_of_getElem? t _ e he] at h1; exact h1
+  · rintro ⟨hj, h⟩
+    refine ⟨hj, fun y _ => ?_⟩
+    by_cases hc : j < y ∧ y ≤ k
+    · right
+      cases he : t[y - 1]? with
+      | some e => rw [getD_of_getElem? t _ e he]; exact h y hc.1 hc.2 e he
+      | none => rw [getD_of_none t _ he]; rfl
+    · left; intro h1 h2; exact hc ⟨h1, h2⟩
+
+theorem lenOKB_iff (t : Trace) (k jl : Nat) : lenOKB t k jl = true ↔ LenOK t k jl := by
+  unfold lenOKB LenOK
+  simp only [Bool.and_eq_true, decide_eq_true_eq, List.all_eq_true, List.mem_range, Bool.or_eq_true,
+    Bool.not_eq_true', Bool.and_eq_false_imp, decide_eq_false_iff_not]
+  constructor
+  · rintro ⟨hj, h⟩
+    refine ⟨hj, fun y hjy hyk e he => ?_⟩
+    rcases h y (by omega) with h1 | h1
+    · exact absurd hyk (h1 hjy)
+    · rw [getD_of_getElem? t _ e he] at h1; exact h1
+  · rintro ⟨hj, h⟩
+    refine ⟨hj, fun y _ => ?_⟩
+    by_cases hc : jl < y ∧ y ≤ k
+    · right
+      cases he : t[y - 1]? with
+      | some e => rw [getD_of_getElem? t _ e he]; exact h y hc.1 hc.2 e he
+      | none => rw [getD_of_none t _ he]; rfl
+    · left; intro h1 h2; exact hc ⟨h1, h2⟩
+
+theorem crashImage_get (vols : Nat → Img) (jl : Nat) (choice : Nat → Nat) (i : Nat)
+    (hi : i < (vols jl).len) : (crashImage vols jl choice).get i = (vols (choice (i / kSector))).get i := by
+  unfold crashImage Img.get
+  simp only [hi, if_true]
+
+end KV.IO.Fs
